@@ -27,6 +27,10 @@ Round 8: size arithmetic in the id test (`len(A | ids(X)) != len(A) + len(X)`), 
 filter conjuncts, _collect_subtree through a generator; list_ops_keep_members (c11) and owners_compared_by_identity (WBS.__eq__ with
 `!=` guards) also run under C05; c01.mirror_parent / c01.own are called through proxies (guard residues behind hoisted locals,
 `not key.startswith('_')` behind a hoisted local, dependency-list facades are not hierarchy state).
+Round 9: taskrules.require is called through `require` here (owner read through the public Task.wbs == raw field; the spelling
+of the ancestors handed to the two-argument dependency helper is C01's question); a root memo in _find_root must be reset for the
+whole moved subtree; all_children filling an accumulator handed down the recursion; builtin setattr(task, key, v) guarded by the
+public-name test; dependency-list helpers of the list base classes are not hierarchy state.
 Not decided: a memoised all_children whose invalidation looks complete (UNDECIDED); id tests written with running `picked`
 sets or other idioms the evaluator does not model (UNDECIDED).
 """
@@ -298,10 +302,10 @@ def parent_mode(ctx, o, eff):
     A, N, AND = T.F_atom, T.F_not, T.F_and
     f = prog.func(SETTERS['parent'])
     writes = relation_write_nodes(ctx, f, eff)
-    T.require(ctx, o, f, "detached task: ids of the subtree vs the receiving tree (skipped only when the parent OBJECT is unchanged)",
+    require(ctx, o, f, "detached task: ids of the subtree vs the receiving tree (skipped only when the parent OBJECT is unchanged)",
               AND(A('wbsnone(self)'), N(A('none(arg)')), N(A('same(arg,self.parent)')), A('call:_has_id_intersection(arg,[self])')),
               writes, eff, False, mode_filter=_reaches_under)
-    T.require(ctx, o, f, "attached task: the new parent must belong to the same WBS",
+    require(ctx, o, f, "attached task: the new parent must belong to the same WBS",
               AND(N(A('wbsnone(self)')), N(A('none(arg)')), A('wbsneq(arg,self)')), writes, eff, False, mode_filter=_reaches_under)
 
 
@@ -326,10 +330,64 @@ def children_mode(ctx, o, eff):
     A, N, AND = T.F_atom, T.F_not, T.F_and
     f = prog.func(SETTERS['children'])
     writes = relation_write_nodes(ctx, f, eff)
-    T.require(ctx, o, f, "detached receiver: ids of the new children vs the receiving tree",
+    require(ctx, o, f, "detached receiver: ids of the new children vs the receiving tree",
               AND(A('wbsnone(self)'), A('call:_has_id_intersection(self,arg)')), writes, eff, False, mode_filter=_reaches_under)
-    T.require(ctx, o, f, "attached receiver: ids of the new children vs the whole WBS",
+    require(ctx, o, f, "attached receiver: ids of the new children vs the whole WBS",
               AND(N(A('wbsnone(self)')), A('call:_has_id_intersection(self,arg)')), writes, eff, False, mode_filter=_reaches_under)
+
+
+def require(ctx, o, f, label, R, writes, eff, needs_elem, mode_filter=None):
+    """taskrules.require, preceded by one more reading of the guards: the owner read through the PUBLIC accessor (`x.wbs is None`,
+    e.g. after a validation helper written against the public API was spliced in) is the same fact as `x.__wbs is None`.
+    taskrules.canon_atom knows the raw field only (`wbsnone`) and calls the other `none(x.wbs)`.  When the requirement is implied
+    with that renaming, the site is recorded here; otherwise taskrules.require decides (and words the finding)."""
+    import re as _re
+    cfg = cfg_of(f)
+
+    def ren(fm):
+        k = fm[0]
+        if k == 'atom':
+            a = _re.sub(r"\bnone\(([^()]*)\.wbs\)", r"wbsnone(\1)", fm[1])
+            # WHICH ancestors the dependency helper is handed is C01's question; for "rejected before the first write" it is enough
+            # that the helper is asked about the moved task / the new child
+            m = _re.match(r"^call:_has_dependency_with_parents\((elem|self),(.*)\)$", a)
+            def _one_arg(txt):
+                depth = 0
+                for ch in txt:
+                    depth += ch in '([{'
+                    depth -= ch in ')]}'
+                    if ch == ',' and depth == 0:
+                        return False
+                return True
+            if m and m.group(2) not in ('self', 'arg') and _one_arg(m.group(2)):      # extra arguments (flags) change the question
+                rest = m.group(2)
+                if m.group(1) == 'elem' and _re.search(r"\bself\b", rest):
+                    a = 'call:_has_dependency_with_parents(elem,self)'
+                elif m.group(1) == 'self' and _re.search(r"\barg\b", rest):
+                    a = 'call:_has_dependency_with_parents(self,arg)'
+            return ('atom', a)
+        if k == 'not':
+            return ('not', ren(fm[1]))
+        if k in ('and', 'or'):
+            return (k, [ren(x) for x in fm[1]])
+        return fm
+    try:
+        gfs = T.guard_formulas(ctx, f)
+        if any('.wbs)' in a or a.startswith('call:_has_dependency_with_parents(') for g in gfs for a in T.atoms_of(g.formula)):
+            usable = []
+            for g in gfs:
+                late = T.writes_not_preceded(cfg, f, T._as_gf(g), writes)
+                if mode_filter is not None:
+                    late = [w for w in late if mode_filter(cfg, f, w[0], g)]
+                fm = ren(g.formula)
+                if not late and g.exc == 'RuntimeError' and (g.per_element or not needs_elem or 'elem' not in T.fmt(fm)):
+                    usable.append(fm)
+            if T.implication(R, usable) is None:
+                o.site(f, f.node, f"{label}: {T.fmt(R)} => RuntimeError before the first write (owner read through Task.wbs)")
+                return True
+    except Exception:
+        pass
+    return T.require(ctx, o, f, label, R, writes, eff, needs_elem, mode_filter=mode_filter)
 
 
 def children_atomic(ctx, o, eff):
@@ -339,7 +397,7 @@ def children_atomic(ctx, o, eff):
     for label, R in (("a new child is the task itself", A('same(elem,self)')),
                      ("the task is a descendant of a new child", A('desc(self,elem)')),
                      ("a dependency links a new child's subtree with the task or its ancestors", A('call:_has_dependency_with_parents(elem,self)'))):
-        T.require(ctx, o, f, label, R, writes, eff, True)
+        require(ctx, o, f, label, R, writes, eff, True)
 
 
 def parent_atomic(ctx, o, eff):
@@ -350,7 +408,7 @@ def parent_atomic(ctx, o, eff):
                      ("the new parent is a descendant of the task", AND(N(A('none(arg)')), A('desc(arg,self)'))),
                      ("a dependency links the moved subtree with the new parent or its ancestors",
                       AND(N(A('none(arg)')), A('call:_has_dependency_with_parents(self,arg)')))):
-        T.require(ctx, o, f, label, R, writes, eff, False)
+        require(ctx, o, f, label, R, writes, eff, False)
     # no rejection of its own after the first write
     cfg = cfg_of(f)
     for r in [n for n in walk_no_nested(f.node) if isinstance(n, ast.Raise)]:
@@ -396,6 +454,13 @@ def scope(ctx, o):
     if any(d.kind != 'param' for d in fl.defs_of(p)) and not all(
             d.kind == 'param' or (d.kind == 'assign' and d.value is not None and cursor_expr(ex.expand(d.value, d.node))) for d in fl.defs_of(p)):
         o.undecided(f, f.node, '_find_root', f"the parameter `{p}` is overwritten with something that is not an ancestor of the given task")
+        return
+    memo = sorted({n.attr for n in ast.walk(f.node) if isinstance(n, ast.Attribute) and cursor_expr(n.value) and
+                   n.attr not in ('wbs', 'parent', '_Task__parent', '_Task__wbs', 'id', 'children', '_Task__children')
+                   and not isinstance(getattr(n, 'ctx', None), ast.Store) and prog.find_method('Task', unmangle(n.attr)) is None
+                   and prog.find_getter('Task', unmangle(n.attr)) is None})
+    if memo:
+        _root_memo(ctx, o, f, memo[0])
         return
     cases = []          # (return stmt, value, [(test, pol)])
     for r in [n for n in walk_no_nested(f.node) if isinstance(n, ast.Return)]:
@@ -477,6 +542,40 @@ def scope(ctx, o):
                     o.undecided(f, r, r, f"`return {c}` under conditions the rule cannot interpret: " + ', '.join(facts.cond_texts(cs))[:120])
             continue
         o.undecided(f, r, r, f"_find_root returns `{src(v)[:60]}`: unrecognised form of the root search")
+
+
+def _root_memo(ctx, o, f, F):
+    """_find_root remembers the root on the task (field F).  Re-parenting a task changes the root of its WHOLE subtree: unless the
+    parent setter (or a helper of it) resets F on the moved task and on all its descendants, tasks below the moved one keep the old
+    root and the id test below them looks at the wrong tree.  A reset of the moved task alone is refuted; a reset that walks the
+    subtree leaves the obligation undecided (its completeness is not provable here)."""
+    prog = ctx.prog
+    ps = prog.func(SETTERS['parent'])
+    from .c11 import _closure
+    resets_self, resets_subtree = None, None
+    for g in _closure(ctx, ps):
+        gs = g.self_name
+        for st, tgt, val in facts.attr_stores(g, F):
+            loop = None
+            for n in walk_no_nested(g.node):
+                if isinstance(n, (ast.For, ast.While)) and any(x is st for x in ast.walk(n)):
+                    loop = n
+            rec = any(isinstance(c.func, ast.Attribute) and not (isinstance(c.func.value, ast.Name) and c.func.value.id == gs)
+                      for c in facts.calls_named(g, g.name)) if g is not ps else False
+            if loop is not None or rec:
+                resets_subtree = st
+            elif isinstance(tgt.value, ast.Name) and tgt.value.id == gs:
+                resets_self = st
+    if resets_subtree is not None:
+        o.undecided(f, f.node, 'root memo', f"_find_root remembers the root in Task.{F}; the parent setter resets it over a loop / recursion, "
+                                            f"but that every task whose root changes is covered cannot be established here")
+    elif resets_self is not None:
+        o.refute(ps, resets_self, resets_self, f"_find_root remembers the root of a detached tree in Task.{F} and the parent setter resets it for "
+                                               f"the moved task only (`{src(resets_self)[:40]}`): its descendants keep the old root, an id check "
+                                               f"for an attach below them compares with the wrong tree")
+    else:
+        o.refute(f, f.node, 'root memo', f"_find_root remembers the root in Task.{F} and nothing resets it when a task is re-parented: id checks "
+                                         f"compare with the tree the task used to belong to")
 
 
 def _cform(t, c):
